@@ -197,10 +197,23 @@ def run_check(pid, tier, want_text):
         + [("features/" + str(Path(s).relative_to(work / "features" / "f")), s) for s in feat]
     if want_text:
         progs = [(i, s) for i, s in progs if "import " not in Path(s).read_text(errors="replace")]
-    # (`./` only for programs without imports: a module that imports the entry module is compiled a second time under the
+    # (`./` only for programs in which no module imports the entry module: such a module is compiled a second time under the
     # normalised spelling, and the position texts inside its `assert` arguments then name the file differently - not a codec matter)
-    has_import = {i for i, s in progs if "import " in Path(s).read_text(errors="replace")}
-    pobs = C.pmap(lambda kx: observe_program(binary, root, kx[1][1], want_text, kx[1][0], stale=(blob if kx[0] % 2 == 0 else b""), pre=("./" if kx[0] % 3 == 1 and kx[1][0] not in has_import else "")), list(enumerate(progs)))
+    import re as _re
+
+    def imports_entry(src):
+        src = Path(src)
+        entry = src.stem
+        for f in src.parent.rglob("*.ms"):
+            for line in f.read_text(errors="replace").splitlines():
+                if line.lstrip().startswith("import ") and _re.search(r"(^|[\s/])" + _re.escape(entry) + r"\s*$", line):
+                    return True
+        return False
+    has_import = {i for i, s in progs if imports_entry(s)}
+    # the feature-area programs (closures, objects with methods that construct their own class, lists / maps, ...) all run under
+    # the `./` spelling, every third one of the others
+    dotslash = lambda k, i: i not in has_import and (i.startswith("features/") or k % 3 == 1)
+    pobs = C.pmap(lambda kx: observe_program(binary, root, kx[1][1], want_text, kx[1][0], stale=(blob if kx[0] % 2 == 0 else b""), pre=("./" if dotslash(kx[0], kx[1][0]) else "")), list(enumerate(progs)))
     allobs = obs + pobs
     r = judge(work, allobs)
     byid = {o["id"]: o for o in allobs}
@@ -221,7 +234,7 @@ def run_check(pid, tier, want_text):
         states=g.distinct + r.distinct, transitions=g.generated + r.generated,
         traces_validated_against_impl=len(allobs), literal_bodies_enumerated=len(cases), literals_run=len(obs),
         not_a_single_literal=not_literal, literals_rejected_by_compiler=sum(1 for o in obs if not o["compiled"]),
-        programs=len(pobs), programs_with_dot_slash_entry=sum(1 for k, (i, _) in enumerate(progs) if k % 3 == 1 and i not in has_import), long_literal_programs=len(big), programs_nondeterministic_excluded=sum(1 for o in pobs if o.get("nondeterministic")),
+        programs=len(pobs), programs_with_dot_slash_entry=sum(1 for k, (i, _) in enumerate(progs) if dotslash(k, i)), long_literal_programs=len(big), programs_nondeterministic_excluded=sum(1 for o in pobs if o.get("nondeterministic")),
         programs_not_compiling=sum(1 for o in pobs if not o["compiled"] and not o.get("nondeterministic")),
         model_mismatches=len(mism), compiled_over_a_longer_existing_output=sum(1 for k in range(len(todo)) if k % 3 == 0) + sum(1 for k in range(len(progs)) if k % 2 == 0), spec_theorems_checked=["C04_ArgumentsReadBackAsEmitted", "C18_TextFormRoundTrips", "CanonDecodes"],
         evaluations=len(allobs), distinct_nontrivial=sum(1 for o in obs if any(ch in '"\\ \t\n\r' for ch in o["body"])),
